@@ -14,6 +14,10 @@ ops (all numbers are ticks of the fake base clock):
                                 is handled `late_k <= g` after its stamp, after `pos_k` calls of the timeline; the
                                 base deadline is delivered `dlLate` late (`dlPre`=1: before a timer handled at the
                                 same instant); `bad-oracle` when a position does not fit
+* `exec t0 d` | `exec t0 d tend pre kind code`
+                             -> `status exit virt instant`  run stage of localBuildExecutor.Execute: timeout `d`, the command
+                                never ends by itself | ends at `tend` with exit code `code` (`kind`=0) or a runner error
+                                (`kind`=1); status ok|deadline|runner-error, exit `-` when there is no response
 * `unsusp a b`               -> `n`                       specification-side unsuspended time in `[a,b)`
 * `total t`                  -> `n`                       getTotalUnsuspendedNow at `t`
 -/
@@ -37,6 +41,13 @@ def showResultL : Out → String
   | .outOfFuel => "out-of-fuel"
   | .badOracle => "bad-oracle"
   | .done r => s!"{r.instant} {showReason r.reason} {r.dur} {r.stamp}"
+
+def showExec : Option ExecResult → String
+  | none => "out-of-fuel"
+  | some o =>
+    let c := match o.code with | .ok => "ok" | .deadlineExceeded => "deadline" | .runnerError => "runner-error"
+    let e := match o.exitCode with | some x => toString x | none => "-"
+    s!"{c} {e} {o.virt} {o.instant}"
 
 def pairs : List Nat → Option (List Delivery)
   | [] => some []
@@ -83,6 +94,16 @@ def step (s : DS) (ws : List String) : DS × String :=
       if tc < t0 || pre > 1 || dlPre > 1 then (s, "bad-op")
       else (s, showResultL (fireL s.P g s.tl (some ⟨tc, pre == 1⟩) t0 d dlLate (dlPre == 1) dv))
     | _, _ => (s, "bad-op")
+  | ["exec", t0, d] =>
+    match t0.toNat?, d.toNat? with
+    | some t0, some d => (s, showExec (execRun s.P s.tl t0 d none))
+    | _, _ => (s, "bad-op")
+  | ["exec", t0, d, tend, pre, kind, code] =>
+    match natList [t0, d, tend, pre, kind, code] with
+    | some [t0, d, tend, pre, kind, code] =>
+      if tend < t0 || pre > 1 || kind > 1 then (s, "bad-op")
+      else (s, showExec (execRun s.P s.tl t0 d (some ⟨tend, pre == 1, if kind == 0 then .exit code else .failed⟩)))
+    | _ => (s, "bad-op")
   | ["unsusp", a, b] =>
     match a.toNat?, b.toNat? with
     | some a, some b => (s, toString (unsuspended s.tl a b))
